@@ -1,6 +1,6 @@
 """C16 - ordered metadata maps (SortableDict / MetadataObject): one operation from an
-arbitrary valid state, in lock-step with a reference ordered-map model (E1, CrossHair)."""
-from .. import common, xhair
+arbitrary valid state, in lock-step with a reference ordered-map model (symx explorer: native execution, z3-decided branches)."""
+from .. import common, xhair, symrun
 
 PRELUDE = r'''
 from hszinc.sortabledict import SortableDict
@@ -199,12 +199,90 @@ add('meta_extend', 'kk: int, vv: int, kq: int, w2: int, replace: bool, form: int
     'MetadataObject.extend with list / dict / SortableDict', cls='MetadataObject', timeout=90, split_n=True)
 
 
+SEQ_PRELUDE = r'''
+def apply_op(d, m, op, k, pk, after):
+    """one public operation chosen by selector; arguments are concretised only where the operation uses them"""
+    ck = lambda: KEYS[conc(k, 0, SEQK - 1)]
+    if op == 0:
+        key = ck(); pkey = KEYS[conc(pk, 0, SEQK - 1)]; aft = bool(after)
+        impl = lambda: d.add_item(key, 5, after=aft, pos_key=pkey); model = lambda: m_add(m, key, 5, after=aft, pos_key=pkey)
+    elif op == 1:
+        key = ck()
+        impl = lambda: d.__setitem__(key, 6); model = lambda: m_add(m, key, 6)
+    elif op == 2:
+        key = ck()
+        def mdel():
+            if key not in m_keys(m):
+                raise KeyError(key)
+            return [(a, b) for a, b in m if a != key]
+        impl = lambda: d.__delitem__(key); model = mdel
+    elif op == 3:
+        impl = lambda: d.reverse(); model = lambda: list(reversed(m))
+    elif op == 4:
+        impl = lambda: d.sort(); model = lambda: sorted(m, key=lambda p: p[0])
+    elif op == 5:
+        key = ck()
+        def mindex():
+            if key not in m_keys(m):
+                raise ValueError(key)
+            return m
+        def iindex():
+            if d.index(key) != m_keys(m).index(key):
+                raise AssertionError('index() disagrees with the order')
+        impl = iindex; model = mindex
+    elif op == 6:
+        def mpop():
+            if not m:
+                raise IndexError()
+            return m[1:]
+        impl = lambda: d.pop_at(0); model = mpop
+    else:
+        key = ck(); idx = conc(pk, 0, SEQK - 1); aft = bool(after)
+        impl = lambda: d.add_item(key, 7, after=aft, index=idx); model = lambda: m_add(m, key, 7, after=aft, index=idx)
+    r1 = outcome(impl); r2 = outcome(model)
+    if r1[0] != r2[0]:
+        return None
+    if r1[0] == 'raises':
+        return m if r1[1] == r2[1] else None
+    return r2[1]
+
+def run_seq(n0, ops):
+    d = MetadataObject()
+    m = []
+    for i in range(n0):
+        d[KEYS[i]] = i
+        m.append((KEYS[i], i))
+    for (op, k, pk, after) in ops:
+        m = apply_op(d, m, conc(op, 0, NOPS - 1), k, pk, after)
+        if m is None or not agree(d, m):
+            return False
+    return True
+'''
+
+
+def seq_harnesses(depth, quick):
+    out = []
+    sig = ', '.join('o%d: int, k%d: int, p%d: int, a%d: bool' % (i, i, i, i) for i in range(depth))
+    pre = ' and '.join('0 <= o%d < NOPS and 0 <= k%d < SEQK and 0 <= p%d < SEQK' % (i, i, i) for i in range(depth))
+    ops = ', '.join('(o%d, k%d, p%d, a%d)' % (i, i, i, i) for i in range(depth))
+    for n0 in (2, 3):
+        for first in range(7 if quick else 8):
+            subs = [('', '')] if first not in (0, 7) else [('_k%d' % c, ' and k0 == %d' % c) for c in range(3 if quick else 4)]
+            for tag, extra in subs:
+                name = 'seq%d_n%d_first%d%s' % (depth, n0, first, tag)
+                src = ('def %s(%s) -> bool:\n    """\n    pre: %s and o0 == %d%s\n    post: _\n    """\n    return run_seq(%d, [%s])\n'
+                       % (name, sig, pre, first, extra, n0, ops))
+                out.append(xhair.Harness(name, src, timeout=120 if quick else 900,
+                                         what='history of %d public operations from a map of %d keys (first op %d%s)' % (depth, n0, first, extra)))
+    return out
+
+
 def run(chk):
     quick = chk.tier == 'quick'
     nk, maxn = (4, 3) if quick else (5, 4)
     chk.bounds = dict(key_universe=nk, max_keys_in_pre_state=maxn, values='unbounded symbolic ints',
                       positions='index 0..max+1, pos_key over the whole key universe, after/replace both values',
-                      history='one operation from an arbitrary valid state (inductive step); invariant I16 re-established after every operation')
+                      history='one operation from an arbitrary valid state (inductive step, invariant I16 re-established after every operation) plus all histories of 3 public operations (add_item pos_key/index, store, delete, reverse, sort, index(), pop_at) over 3 (quick) / 4 keys from maps built through the public API')
     chk.assumptions = ['I16 (pre-state): _order is duplicate-free and lists exactly the keys of _values - checked to be re-established by every operation, so the one-step result extends to histories of any length (induction schema trusted)',
                        'keys are concrete strings chosen by symbolic selectors (real dict hashing needs concrete keys); values are symbolic ints',
                        'reference model m_add written from the add_item docstring; an explicit index is the position in the resulting order; key relative to itself keeps its place',
@@ -215,11 +293,12 @@ def run(chk):
     chk.functions.update(['SortableDict.__init__', 'SortableDict.add_item', 'SortableDict.__setitem__', 'SortableDict.__delitem__',
                           'SortableDict.at/value_at/index/pop_at/reverse/sort', 'MutableMapping mixins pop/update/setdefault/clear',
                           'MetadataObject.append', 'MetadataObject.extend'])
-    hs = [x for x in H if (not chk.only or chk.only in x.name) and not any(x.name.endswith('_n%d' % j) for j in range(maxn + 1, 5))]
+    allh = H + seq_harnesses(3, quick)
+    hs = [x for x in allh if (not chk.only or chk.only in x.name) and not any(x.name.endswith('_n%d' % j) for j in range(maxn + 1, 5))]
     if not quick:
         for x in hs:
             x.timeout *= 8
-    xhair.run_harnesses(chk, PRELUDE.replace('@NK@', str(nk)).replace('@MAXN@', str(maxn)), hs)
+    symrun.run_harnesses(chk, (PRELUDE + SEQ_PRELUDE + '\nSEQK = %d\nNOPS = %d\n' % ((3, 7) if quick else (4, 8))).replace('@NK@', str(nk)).replace('@MAXN@', str(maxn)), hs)
     return chk.finish(rule='one CrossHair condition per operation; the pre-state (which keys, in which order, with which values) and every '
                            'argument are symbolic; the real method and the reference model run side by side; non-trivial = non-vacuous '
                            'harness explored without counterexample', exhaustive=not chk.inconclusive)
